@@ -80,14 +80,22 @@ func (w *c25world) life(d *memdisk.Disk, p c25prod, logical c25state, nOps int, 
 			}
 			return nil
 		}
-		switch c := r.Intn(20); {
+		c := r.Intn(20)
+		nKeys := 3
+		if w.big {
+			nKeys = 6
+			if c >= 15 && r.Intn(4) != 0 {
+				c = 0 // few flushes: each one carries several big values per database and is written as several batches
+			}
+		}
+		switch {
 		case c < 9:
 			if err := ensure(); err != nil {
 				return script, err
 			}
-			k, v := []byte{byte('a' + r.Intn(3))}, []byte{byte('A' + op%26), byte(*w.nFlush)}
-			if w.big && r.Intn(2) == 0 {
-				v = append(v, make([]byte, 45000)...)
+			k, v := []byte{byte('a' + r.Intn(nKeys))}, []byte{byte('A' + op%26), byte(*w.nFlush)}
+			if w.big && r.Intn(4) != 0 {
+				v = append(v, make([]byte, 60000)...)
 			}
 			if r.Intn(4) == 0 {
 				if err := open[n].Delete(k); err != nil {
@@ -114,7 +122,7 @@ func (w *c25world) life(d *memdisk.Disk, p c25prod, logical c25state, nOps int, 
 			for j := 0; j < 2+r.Intn(2); j++ {
 				k, v := []byte{byte('a' + r.Intn(4))}, []byte{byte('a' + op%26), byte(j)}
 				if w.big {
-					v = append(v, make([]byte, 45000)...) // several of these exceed the ideal batch size: a flush is split into batches
+					v = append(v, make([]byte, 60000)...) // several of these exceed the ideal batch size: a flush is split into batches
 				}
 				if r.Intn(4) == 0 {
 					b.Delete(k)
@@ -224,9 +232,12 @@ func runC25(c *ev.Ctx) {
 		d.Record = true
 		p := c25mk(kind, d)
 		names := []string{"A", "B", "C", "D"}[:2+r.Intn(3)]
+		if h%10 >= 8 {
+			names = names[:2] // big values: few databases, so that one flush carries several of them per database and is split into batches
+		}
 		nFlush := 0
 		flushes := []c25flush{{id: nil, state: c25state{}}}
-		w := &c25world{r: r, kind: kind, gen: map[string]int{}, nFlush: &nFlush, flushes: &flushes, big: h%10 == 9}
+		w := &c25world{r: r, kind: kind, gen: map[string]int{}, nFlush: &nFlush, flushes: &flushes, big: h%10 >= 8}
 		if w.big {
 			c.Count("histories_with_values_beyond_the_ideal_batch_size", 1)
 		}
@@ -258,6 +269,11 @@ func runC25(c *ev.Ctx) {
 		// the op touching the marker key is not visible here, so count ops per script step instead: crash points
 		// directly after a drop are identified from the disk's own op log.
 		recovered := []int{}
+		for si := 1; si < len(d.Ops); si++ {
+			if d.Ops[si].Kind == "batch" && d.Ops[si-1].Kind == "batch" && d.Ops[si].DB == d.Ops[si-1].DB && kind == 0 {
+				c.Count("crash_points_between_the_batches_of_one_split_flush", 1)
+			}
+		}
 		for si, snap := range d.Snaps {
 			cls, detail, fi := c25judge(kind, snap, flushes)
 			c.Eval(1)
